@@ -85,6 +85,10 @@ static void sock_async_read_some(struct fastcgi *self, char *p, size_t n)
 }
 /* async_read_record(continuation(h)), async_send_respnse(continuation(h)), async_read_headers(h): h handed over once */
 static void async_read_record_cb(struct fastcgi *self, int cont) { give_h(cont); }
+/* io_handler variants: h(e, n) posted / bound with the byte count (and destination) it will report */
+size_t g_h_n, g_cont_n, g_bp0, g_bn0; void *g_cont_p; long long g_rl0; char g_src_v;
+static void post_h(int code, size_t n) { g_h_calls++; g_h_code = code; g_h_n = n; }
+static void async_read_record_n(struct fastcgi *self, int cont, void *p, size_t n) { give_h(cont); g_cont_p = p; g_cont_n = n; }
 static void async_send_respnse_cb(struct fastcgi *self, int cont) { give_h(cont); }
 /* second parse_pairs overload (std::vector<std::pair<std::string,std::string>>): outcome only */
 static bool fcgi_parse_pairs_vec(struct fastcgi *self) { bool r; return r; }
@@ -202,6 +206,16 @@ jobs += [
          harness=setup(65535) + 'int e; WIT(0, e); WIT(1, c.header_.type); WIT(2, c.header_.version); WIT(3, bn); WIT(4, ce - cs); WIT_BUF(0, cache + cs, ce - cs);'
          ' fcgi_on_start_request(&c, e); VERIF_REACH;',
          witness=dict(bufs=['cache'], vals=['e', 'type', 'version', 'body_n', 'cached']), replay='c02fcgi:on_start_request', replay_link=['-L{BUILD}', '-lcppcms', '-L{BUILD}/booster', '-lbooster']),
+]
+
+jobs += [
+    dict(name='fcgi_async_read_some', props=P12, replay='c02fcgi:stdin_stream', replay_link=['-L{BUILD}', '-lcppcms', '-L{BUILD}/booster', '-lbooster'], replay_exhaustive='two consecutive STDIN payloads of 1..6 bytes read with buffers of 1..7 bytes through the real fastcgi::async_read_some; delivered bytes compared with payload1 ++ payload2', enforce='fcgi_async_read_some', replace=['verif_memcpy'], harness=setup('FCGI_BODY_LIMIT') +
+         'size_t n; __CPROVER_assume(n >= 1 && n <= BUF_CAP); char *out = malloc(n); __CPROVER_assume(out != NULL); g_cont = CB_none; long long cl, rl; c.content_length_ = cl; c.read_length_ = rl; '
+         'unsigned bp; c.body_ptr_ = bp; fcgi_async_read_some(&c, out, n); VERIF_REACH;'),
+    dict(name='fcgi_on_some_input_recieved', props=P12, replay='c02fcgi:stdin_stream', replay_link=['-L{BUILD}', '-lcppcms', '-L{BUILD}/booster', '-lbooster'], replay_exhaustive='two consecutive STDIN payloads of 1..6 bytes read with buffers of 1..7 bytes through the real fastcgi::async_read_some; delivered bytes compared with payload1 ++ payload2', enforce='fcgi_on_some_input_recieved', replace=['fcgi_async_read_some'], harness=setup('FCGI_BODY_LIMIT') +
+         'size_t n; __CPROVER_assume(n >= 1 && n <= BUF_CAP); char *out = malloc(n); __CPROVER_assume(out != NULL); g_cont = CB_none; long long cl, rl; c.content_length_ = cl; c.read_length_ = rl; '
+         'unsigned bp; c.body_ptr_ = bp; int e; fcgi_on_some_input_recieved(&c, e, out, n); VERIF_REACH;'),
+    dict(name='fcgi_on_read_stdin_eof_expected', props=P12, enforce='fcgi_on_read_stdin_eof_expected', harness=setup(8) + 'int e; size_t n; fcgi_on_read_stdin_eof_expected(&c, e, n); VERIF_REACH;'),
 ]
 
 UNIT = dict(
